@@ -527,7 +527,7 @@ package leader
 //@   ensures C08.promote_once: scalls(onPromote) == ((claimed && promoteSet) ? 1 : 0)
 //@   ensures C08.promotion_goroutine_calls_back: scalls(onPromote) == ((claimed && promoteSet) ? 1 : 0)
 //@   ensures C09.no_promote_after_stop: stateL == "STOPPED" || ctxNilL ==> !claimed && scalls(heartbeatLoop) == 0 && scalls(validationLoop) == 0 && scalls(onPromote) == 0
-//@   ensures C02.claims_when_running: stateL != "STOPPED" && !ctxNilL && !wasLeaderAtLock ==> claimed && scalls(heartbeatLoop) == 1 && scalls(validationLoop) == 1
+//@   ensures C02+C06.claims_when_running: stateL != "STOPPED" && !ctxNilL && !wasLeaderAtLock ==> claimed && scalls(heartbeatLoop) == 1 && scalls(validationLoop) == 1
 //@   ensures C08.no_second_term_on_top_of_a_term: wasLeaderAtLock ==> !claimed && scalls(heartbeatLoop) == 0 && scalls(validationLoop) == 0 && scalls(onPromote) == 0
 
 // becomeFollower() and settleAsFollower() are thin unexported wrappers: always inlined into
@@ -687,6 +687,7 @@ package leader
 //@   ghost entErr Int = 0
 //@   ghost got Bool = false
 //@   ghost cAtEntry Bool = cancelled(ctx)
+//@   on call KeyValue.Get assert C09+C04.cancelled_context_issues_no_read: !cAtEntry
 //@   on load kvElection.token as l set tok = l.value
 //@   on load kvElection.token set ntok = ntok + 1
 //@   on recv local as r set ent = r.value.entry
